@@ -18,6 +18,19 @@ pub type BoxedJob = Box<DynJob>;
 
 /// `Vec<Weak<Condvar>>`: the condition variables of blocked sync callers (contents matter to liveness only)
 pub struct WeakCondvar { pub _p: () }
+impl WeakCondvar {
+    /// `Weak::strong_count`: 0 once the waiting `sync` call has returned (its Arc lives on that call's stack)
+    pub uninterp spec fn spec_strong_count(&self) -> usize;
+    #[verifier::when_used_as_spec(spec_strong_count)]
+    #[verifier::external_body]
+    pub fn strong_count(&self) -> (r: usize)
+        ensures r == self.spec_strong_count(),
+    { unimplemented!() }
+}
+/// every waiter of `before` whose sync call is still waiting is still registered in `after`
+pub open spec fn live_waiters_kept(before: Seq<WeakCondvar>, after: Seq<WeakCondvar>) -> bool {
+    forall|j: int| 0 <= j < before.len() && (#[trigger] before[j]).spec_strong_count() > 0 ==> after.contains(before[j])
+}
 pub type WakeBlocked = Vec<WeakCondvar>;
 
 pub struct JobQueueCore {
@@ -40,7 +53,7 @@ pub open spec fn free(s: QueueState) -> bool {
 pub open spec fn active(s: QueueState) -> bool { s is Running || s is AwokenWhileRunning }
 
 /// One critical section on a queue core, as seen by the ghost log
-pub ghost struct Sec { pub a: QueueState, pub b: QueueState, pub alen: nat, pub blen: nat, pub qsame: bool, pub appended: Option<BoxedJob> }
+pub ghost struct Sec { pub a: QueueState, pub b: QueueState, pub alen: nat, pub blen: nat, pub qsame: bool, pub appended: Option<BoxedJob>, pub waiters_kept: bool }
 
 /// Per-thread, per-queue ghost context
 pub tracked struct QCtx {
@@ -150,7 +163,8 @@ pub open spec fn step(c: QCtx, a: JobQueueCore, b: JobQueueCore) -> QCtx {
         debt_pending: c.debt_pending || (s is Idle && t is Pending),
         appends: if appended_now { c.appends + 1 } else { c.appends },
         log: c.log.push(Sec { a: s, b: t, alen: alen, blen: blen, qsame: a.queue@ =~= b.queue@,
-            appended: if appended_now { Some(b.queue@.last()) } else { None } }),
+            appended: if appended_now { Some(b.queue@.last()) } else { None },
+            waiters_kept: live_waiters_kept(a.wake_blocked@, b.wake_blocked@) }),
         ..c1
     }
 }
@@ -182,7 +196,44 @@ pub struct JobQueue { pub core: Mutex<JobQueueCore> }
 
 // ------------------------------------------------------------------ schedule (VecDeque<Arc<JobQueue>>)
 
-pub tracked struct SCtx { pub ghost appended: nat, pub ghost left_empty: bool }   // left_empty: the last section on the schedule left it empty
+pub tracked struct SCtx { pub ghost appended: nat, pub ghost left_empty: bool, pub ghost log: Seq<(Seq<Arc<JobQueue>>, Seq<Arc<JobQueue>>)> }   // left_empty: the last section on the schedule left it empty; log: (before, after) of every section of this thread on the schedule
+
+/// identity of an Arc's allocation (what `Arc::ptr_eq` compares)
+pub uninterp spec fn arc_id<T>(a: &Arc<T>) -> int;
+pub open spec fn spec_arc_ptr_eq<T>(a: &Arc<T>, b: &Arc<T>) -> bool { arc_id(a) == arc_id(b) }
+#[verifier::when_used_as_spec(spec_arc_ptr_eq)]
+#[verifier::external_body]
+pub fn arc_ptr_eq<T>(a: &Arc<T>, b: &Arc<T>) -> (r: bool)
+    ensures r == spec_arc_ptr_eq(a, b),
+{ unimplemented!() }
+
+/// R21: `X.retain(|p| E)` for Vec / VecDeque. The closure is the repository's text; the extractor only states its value as the
+/// closure's postcondition, so what is kept is decided by the predicate that is actually written.
+pub trait SeqLike<T>: Sized {
+    spec fn sview(&self) -> Seq<T>;
+    fn retain_shim<F: Fn(&T) -> bool>(&mut self, f: F)
+        requires
+            forall|x: &T| f.requires((x,)),
+        ensures
+            final(self).sview().len() <= old(self).sview().len(),
+            forall|i: int| 0 <= i < final(self).sview().len() ==> f.ensures((&(#[trigger] final(self).sview()[i]),), true) && old(self).sview().contains(final(self).sview()[i]),
+            // an element is dropped only when the predicate answered `false` for it
+            forall|j: int| 0 <= j < old(self).sview().len() ==> final(self).sview().contains(#[trigger] old(self).sview()[j]) || f.ensures((&old(self).sview()[j],), false);
+}
+impl<T> SeqLike<T> for Vec<T> {
+    open spec fn sview(&self) -> Seq<T> { self@ }
+    #[verifier::external_body]
+    fn retain_shim<F: Fn(&T) -> bool>(&mut self, f: F) { unimplemented!() }
+}
+impl<T> SeqLike<T> for VecDeque<T> {
+    open spec fn sview(&self) -> Seq<T> { self@ }
+    #[verifier::external_body]
+    fn retain_shim<F: Fn(&T) -> bool>(&mut self, f: F) { unimplemented!() }
+}
+/// every queue of `before` other than `q` is still in `after`
+pub open spec fn others_kept(before: Seq<Arc<JobQueue>>, after: Seq<Arc<JobQueue>>, q: &Arc<JobQueue>) -> bool {
+    forall|j: int| 0 <= j < before.len() && !spec_arc_ptr_eq(&(#[trigger] before[j]), q) ==> after.contains(before[j])
+}
 /// wake log: which wakers this thread has woken, and which waker it installed in a DrainWaker
 pub tracked struct WCtx { pub ghost woken: Seq<Waker>, pub ghost installed: Option<Waker> }
 pub tracked struct G { pub tracked q: QCtx, pub tracked s: SCtx, pub tracked w: WCtx }
@@ -196,8 +247,14 @@ impl Mutex<Schedule> {
             r is Ok,
             final(ctx).appended == old(ctx).appended + (if final(r->Ok_0)@.len() == (r->Ok_0)@.len() + 1 && final(r->Ok_0)@.drop_last() =~= (r->Ok_0)@ { 1nat } else { 0nat }),
             final(ctx).left_empty == (final(r->Ok_0)@.len() == 0),
+            final(ctx).log == old(ctx).log.push(((r->Ok_0)@, final(r->Ok_0)@)),
     { unimplemented!() }
 }
+
+/// R23: `mem::drop(guard)` - the critical section ends here, with the value the guard has now
+pub fn drop_guard__<T>(t: &mut T)
+    ensures *final(t) == *old(t),
+{}
 
 // ------------------------------------------------------------------ result / flag cells
 /// monotone cell protocol: once this thread has seen the cell set, it stays set until this thread clears it
